@@ -126,6 +126,16 @@ def gen_wb(rng, big=False):
                 r["appearance"] = rng.choice(["minimal", "multiline", "w1"])
             if rng.random() < 0.1:
                 r["guidance_hint"] = gen.adv_text(rng, 3, plain=True)
+    # truth-value spellings in every convertible bind column, on questions, groups and repeats
+    if rng.random() < 0.3:
+        for r in rows:
+            t = r.get("type", "")
+            if t.startswith("end") or not t or rng.random() > 0.35:
+                continue
+            col = rng.choice(["relevant", "read_only", "required", "constraint", "calculation"])
+            if col == "calculation" and t.startswith("begin"):
+                col = "relevant"
+            r[col] = rng.choice(spell.TRUE_SPELLINGS + spell.FALSE_SPELLINGS)
     # quotes in labels / expressions so that smart-quote rewriting has sites
     if qrows and rng.random() < 0.4:
         r = rng.choice(qrows)
@@ -177,7 +187,7 @@ ALL_TX = [t for t in spell_tx.TX if t != "blank_run"]
 def pick_tx(rng, channel):
     k = rng.choice([1, 1, 2, 2, 3, 4])
     pool = [t for t in ALL_TX if channel != "dict" or t not in spell_tx.NEEDS_FILE or t == "extra_sheet"]
-    weights = [0.3 if t == "blank_row" and channel == "md" else 1.0 for t in pool]
+    weights = [1.0 for t in pool]
     return rng.choices(pool, weights=weights, k=k)
 
 
@@ -202,21 +212,12 @@ def compare(ctx, wb, wb2, labels, channel, tag="meta"):
     case = {"kind": tag, "channel": channel, "wb": strip(wb), "wb2": strip(wb2, keep_orig=True), "labels": labels}
     if ca != cb:
         detail = spell.first_diff(ca, cb)
-        f16 = False
-        if channel in ("md",) and any(l.startswith("blank_row") for l in labels):
-            # F16: does the difference vanish when the rows are numbered as if the blank rows were not there?
-            wb3 = copy.deepcopy(wb2)
-            for s in wb3["sheets"]:
-                keep = [i for i, o in enumerate(s["orig"]) if o is not None]
-                s["rows"] = [s["rows"][i] for i in keep]
-                s["orig"] = [i + 2 for i in range(len(keep))]
-            f16 = spell.canon_result(spell.run(wb3, channel), lax) == ca
         ctx.fail(Failure(
             "not-equivalent",
             f"[{channel}] {' + '.join(labels)}: {detail}",
             case,
             extra={"orig_class": a["class"], "new_class": b["class"], "orig_msg": a.get("msg", ""), "new_msg": b.get("msg", ""),
-                   "site": b.get("site", "") or a.get("site", ""), "labels": labels, "channel": channel, "diff": detail, "f16": f16},
+                   "site": b.get("site", "") or a.get("site", ""), "labels": labels, "channel": channel, "diff": detail},
         ))
     if channel == "dict" and b["ok"] and tag == "meta":
         stage_corr(ctx, wb2, b, case)
@@ -534,7 +535,7 @@ def directed(ctx):
                 extra["raw"] = copy.deepcopy(raw)
             w2["sheets"].insert(k % 3, extra)
             cmp(base_form(), None, [f"extra_sheet:{name}:raw{k}"], "xlsx", w2=w2)
-    # --- F16: markdown drops an interior blank row
+    # --- regression (F16, fixed 26e02dc): markdown keeps an interior blank row
     f2 = base_form()
     f1 = base_form()
     f1["survey"].insert(1, {"type": "note", "label": "unnamed"})
@@ -543,7 +544,8 @@ def directed(ctx):
     s2["rows"].insert(1, [None] * len(s2["cols"]))
     s2["orig"].insert(1, None)
     cmp(f1, None, ["blank_row:survey:1x1"], "md", w2=w2)
-    # --- F51: type-table aliases are not canonicalised before the type-keyed branches
+    # --- F51: type-table aliases are not canonicalised before the type-keyed branches (parameters); the hyphen rule
+    #     of default_is_dynamic (dateTime/datetime, fixed 5a69025) stays as a regression case
     for a, b, col, val in (("geopoint", "gps", "parameters", "capture-accuracy=10"), ("geopoint", "location", "parameters", "capture-accuracy=10"),
                            ("text", "string", "parameters", "rows=5"), ("dateTime", "datetime", "default", "1 - 2")):
         f1, f2 = base_form(), base_form()
@@ -551,6 +553,21 @@ def directed(ctx):
             f["survey"][1]["type"] = t
             f["survey"][1][col] = val
         cmp(f1, f2, [f"type_alias:{a}->{b}"])
+    # --- truth values: every convertible bind column (all spellings of the column) x every row kind x spellings,
+    #     against the XPath literal itself
+    kinds = {"question": 1, "group": 0, "repeat": 4}
+    for attr, cols in spell.CONVERTIBLE_COLUMNS.items():
+        for ci, col in enumerate(cols):
+            for kind, idx in kinds.items():
+                if attr == "calculate" and kind != "question":
+                    continue
+                pools = ((spell.TRUE_SPELLINGS, "true()"), (spell.FALSE_SPELLINGS, "false()"))
+                for pool, lit in pools:
+                    for v in ([x for x in pool if "(" not in x] if ci == 0 else [pool[0], pool[5]]):
+                        f1, f2 = base_form(), base_form()
+                        f1["survey"][idx][col] = lit
+                        f2["survey"][idx][col] = v
+                        cmp(f1, f2, [f"truth:survey:{col}:{lit}->{v}@{kind}"])
     # --- F52: the `disabled` column is recognised in lower case only
     f1, f2 = base_form(), base_form()
     f1["survey"][1]["disabled"] = "yes"
@@ -589,12 +606,7 @@ def replay(ctx, payload, bs):
     return (len(ctx.failures), len(ctx.mismatches)) == before and not ctx.known_seen
 
 
-def m_f16(f):
-    x = f.extra
-    return f.kind == "not-equivalent" and x.get("channel") == "md" and bool(x.get("f16"))
-
-
-TYPE_KEYED = {"geopoint", "gps", "location", "text", "string", "dateTime", "datetime"}
+TYPE_KEYED = {"geopoint", "gps", "location", "text", "string"}
 
 
 def _survey_rows(f):
@@ -605,7 +617,7 @@ def _survey_rows(f):
 
 
 def m_f51(f):
-    """type_alias between spellings of geopoint / text / dateTime on a row that has parameters or a default with ` - `"""
+    """type_alias between spellings of geopoint / text on a row that has parameters"""
     labs = [l for l in f.extra.get("labels", []) if l.startswith("type_alias:")]
     if f.kind != "not-equivalent" or not labs:
         return False
@@ -613,7 +625,7 @@ def m_f51(f):
     for l in labs:
         a, _, b = l[len("type_alias:"):].partition("->")
         if a in TYPE_KEYED and b in TYPE_KEYED:
-            ok = ok or any((r.get("type") or "").strip() == a and (r.get("parameters") or " - " in (r.get("default") or "")) for r in _survey_rows(f))
+            ok = ok or any((r.get("type") or "").strip() == a and bool(r.get("parameters")) for r in _survey_rows(f))
     return ok and f.extra.get("orig_class") == f.extra.get("new_class") == "ok"
 
 
@@ -634,7 +646,7 @@ def m_f54(f):
             and any(l.split(":")[0] in ("hdr_alias", "hdr_case", "hdr_space") and l.split(":")[1].lower() == "external_choices" for l in x.get("labels", [])))
 
 
-MATCHERS = {"F16-md-blank-row-dropped": m_f16, "F51-type-alias-not-canonicalised": m_f51, "F52-disabled-header-case": m_f52,
+MATCHERS = {"F51-type-alias-not-canonicalised": m_f51, "F52-disabled-header-case": m_f52,
             "F53-duplicate-column-spellings-order": m_f53, "F54-itemsets-header-as-typed": m_f54}
 
 
